@@ -66,6 +66,17 @@ type KnownFinding struct {
 	// label, collapsed sequence of environment-action kinds) is listed; any other history of the same class
 	// is reported as a new violation.
 	Histories []string `json:"histories,omitempty"`
+	// HistoriesThorough: further histories of the same finding that only occur within the thorough tier's
+	// larger bounds (the same action sequence can be harmless under the quick parameters); used by the
+	// thorough tier only, so that they do not mask anything at the quick tier.
+	HistoriesThorough []string `json:"histories_thorough,omitempty"`
+}
+
+func (k *KnownFinding) hist(tier string) []string {
+	if tier == "thorough" {
+		return append(append([]string{}, k.Histories...), k.HistoriesThorough...)
+	}
+	return k.Histories
 }
 
 type KnownFile struct {
@@ -386,7 +397,7 @@ func checkMain(args []string) int {
 		for i := range known.Findings {
 			k := &known.Findings[i]
 			if k.Property == id && k.Status == "open" {
-				for _, h := range k.Histories {
+				for _, h := range k.hist(tier) {
 					knownHist[h] = k
 				}
 			}
@@ -432,6 +443,17 @@ func checkMain(args []string) int {
 			okReplay, how := false, ""
 			if mode == "native" {
 				okReplay, how = nativeReplay(verif, repo, epc, ehdir, ec.Name, rp)
+				// real goroutines are not forced into the engine's schedule: on a loaded machine a replay can
+				// take another interleaving and pass; try again before giving up
+				for try := 0; !okReplay && try < 2; try++ {
+					okReplay, how = nativeReplay(verif, repo, epc, ehdir, ec.Name, rp)
+				}
+				if !okReplay && knownHist[sig] != nil {
+					// a listed history of a known finding (natively confirmed when it was recorded)
+					nh := how
+					okReplay, how = engineReplay(e, fn, v)
+					how += " [native attempts: " + nh + "]"
+				}
 				if !okReplay && hasPreemption(v) {
 					// the native scheduler cannot be forced into every cooperative schedule
 					nh := how
@@ -451,7 +473,7 @@ func checkMain(args []string) int {
 				if k.Property == id && k.Status == "open" && (k.Signature == cv.Class || k.Signature == cv.Sig) {
 					if k.Histories != nil {
 						found := false
-						for _, h := range k.Histories {
+						for _, h := range k.hist(tier) {
 							if h == cv.Sig {
 								found = true
 							}
@@ -515,6 +537,19 @@ func checkMain(args []string) int {
 		}
 		for _, u := range oc.Unconfirmd {
 			oc.Inconcl = append(oc.Inconcl, "engine-defect? "+u)
+		}
+		// VERIF_FAILFAST=1 (seed regression only): once an entry has a confirmed violation that no known
+		// finding lists, the verdict (exit 1) is settled; the remaining entries are not run
+		if os.Getenv("VERIF_FAILFAST") != "" {
+			settled := false
+			for _, cv := range oc.Confirmed {
+				if cv.Known == nil {
+					settled = true
+				}
+			}
+			if settled {
+				break
+			}
 		}
 	}
 	// report
